@@ -85,13 +85,17 @@ func runC16(c *core.Ctx) {
 	c.Inc("inputs")
 	c.Inc("inputs:" + format)
 	c.Count("input_bytes", int64(len(input)))
-	kinds := []string{"persistent", "transient", "with-data"}
+	kinds := []string{"persistent", "transient", "with-data", "transient-with-data"}
 	for off := 0; off <= len(input); off++ {
 		for _, kind := range kinds {
 			c.Inc("fault_runs")
 			c.Inc("evaluations")
 			sizes := func() int { return r.Range(1, 40) }
-			fr := mon.NewFaultReader(input, off, kind, sizes, r.Range(1, 30))
+			extra := r.Range(1, 30)
+			if kind == "transient-with-data" {
+				extra = r.Range(1, 150)
+			}
+			fr := mon.NewFaultReader(input, off, kind, sizes, extra)
 			fr.SpinLimit = 100000
 			detail := func(tr omni.Transcript) map[string]interface{} {
 				return map[string]interface{}{"format": format, "schema": string(schema), "input": string(input), "fault_offset": off, "fault_kind": kind,
